@@ -79,6 +79,82 @@ enum Op {
     CreateU,
     InsU,
     Prep(u8, u8),
+    /// a PRAGMA executed in the middle of the session (configuration switched after some statements)
+    Sw(Switch),
+}
+
+/// mid-session configuration switches
+#[derive(Clone, Copy, PartialEq, Eq, Hash, PartialOrd, Ord, Debug)]
+enum Switch {
+    AfOff,
+    AfOn,
+    SyncOff,
+    WalOn,
+    WalOff,
+}
+const ALL_SWITCHES: [Switch; 5] = [Switch::AfOff, Switch::AfOn, Switch::SyncOff, Switch::WalOn, Switch::WalOff];
+impl Switch {
+    fn pragma(self) -> &'static str {
+        match self {
+            Switch::AfOff => "PRAGMA wal_autoflush=OFF",
+            Switch::AfOn => "PRAGMA wal_autoflush=ON",
+            Switch::SyncOff => "PRAGMA synchronous=OFF",
+            Switch::WalOn => "PRAGMA wal=ON",
+            Switch::WalOff => "PRAGMA wal=OFF",
+        }
+    }
+    fn label(self) -> &'static str {
+        &self.pragma()[7..]
+    }
+    fn name(self) -> &'static str {
+        match self {
+            Switch::AfOff => "SW_AF_OFF",
+            Switch::AfOn => "SW_AF_ON",
+            Switch::SyncOff => "SW_SYNC_OFF",
+            Switch::WalOn => "SW_WAL_ON",
+            Switch::WalOff => "SW_WAL_OFF",
+        }
+    }
+    /// does the pragma change anything when it is the first switch of a session started under `cfg`?
+    fn changes(self, cfg: Cfg) -> bool {
+        match self {
+            Switch::AfOff => cfg.autoflush != 1,
+            Switch::AfOn => cfg.autoflush == 1,
+            Switch::SyncOff => cfg.sync != 1,
+            Switch::WalOn => !cfg.wal,
+            Switch::WalOff => cfg.wal,
+        }
+    }
+}
+
+/// how the session ends before the final observation
+#[derive(Clone, Copy, PartialEq, Eq, Hash, PartialOrd, Ord, Debug)]
+enum End {
+    /// no reopen: observe through the same handle (all passes but `session`)
+    Stay,
+    /// the handle is dropped (Drop does the shutdown), then Database::open
+    Drop,
+    /// explicit close(), drop, Database::open
+    Close,
+    /// explicit checkpoint(), drop, Database::open
+    Checkpoint,
+}
+const ALL_ENDS: [End; 4] = [End::Stay, End::Drop, End::Close, End::Checkpoint];
+impl End {
+    fn name(self) -> &'static str {
+        match self {
+            End::Stay => "stay",
+            End::Drop => "drop-reopen",
+            End::Close => "close-reopen",
+            End::Checkpoint => "checkpoint-reopen",
+        }
+    }
+    fn parse(s: &str) -> End {
+        ALL_ENDS.iter().copied().find(|e| e.name() == s).unwrap_or(End::Stay)
+    }
+    fn simpler(self) -> Vec<End> {
+        ALL_ENDS.iter().copied().filter(|e| *e < self).collect()
+    }
 }
 
 /// every op the harness knows, in "simplicity" order (rank = index)
@@ -111,6 +187,9 @@ fn universe() -> Vec<Op> {
     v.push(Op::AddCol);
     v.push(Op::CreateU);
     v.push(Op::InsU);
+    for s in ALL_SWITCHES {
+        v.push(Op::Sw(s));
+    }
     v
 }
 fn rank(op: Op) -> usize {
@@ -135,7 +214,11 @@ impl Op {
             Op::CreateU => "CU".into(),
             Op::InsU => "IU".into(),
             Op::Prep(a, b) => format!("PREP_{a}{b}"),
+            Op::Sw(s) => s.name().into(),
         }
+    }
+    fn is_switch(self) -> bool {
+        matches!(self, Op::Sw(_))
     }
     fn parse(s: &str) -> Option<Op> {
         universe().into_iter().find(|o| o.name() == s)
@@ -155,7 +238,7 @@ impl Op {
             Op::Trunc => vec![Op::Del(1), Op::DelAll],
             Op::Prep(a, b) => vec![Op::Ins(1), Op::Ins(a), Op::Ins2(1, 2), Op::Ins2(a, b), Op::Prep(1, 2)],
             Op::InsU => vec![Op::Ins(1)],
-            Op::CIdx | Op::AddCol | Op::CreateU => vec![],
+            Op::CIdx | Op::AddCol | Op::CreateU | Op::Sw(_) => vec![],
         };
         let r = rank(self);
         c.into_iter().filter(|o| rank(*o) < r).collect()
@@ -336,13 +419,19 @@ struct RunKey {
     var: Var,
     ops: Vec<Op>,
     cfg: Cfg,
+    end: End,
 }
 impl RunKey {
     fn steps(&self) -> usize {
         1 + self.ops.len()
     }
+    /// the reference execution: default configuration, no mid-session switches, and (when the session ends
+    /// with a reopen) the plain drop + open
     fn twin(&self) -> RunKey {
-        RunKey { cfg: Cfg::DEFAULT, ..self.clone() }
+        RunKey { var: self.var, ops: self.ops.iter().copied().filter(|o| !o.is_switch()).collect(), cfg: Cfg::DEFAULT, end: if self.end == End::Stay { End::Stay } else { End::Drop } }
+    }
+    fn is_reference(&self) -> bool {
+        self.cfg == Cfg::DEFAULT && (self.end == End::Stay || self.end == End::Drop) && !self.ops.iter().any(|o| o.is_switch())
     }
     /// op pattern; keys are renamed a,b,c by first appearance so that histories differing only by a key
     /// permutation share a signature
@@ -373,8 +462,12 @@ impl RunKey {
                     let (x, y) = (letter(a), letter(b));
                     format!("PREP[{x}{y}]")
                 }
+                Op::Sw(s) => format!("PRAGMA[{}]", s.label()),
                 o => o.name(),
             });
+        }
+        if self.end != End::Stay {
+            toks.push(format!("@{}", self.end.name()));
         }
         toks.join("+")
     }
@@ -384,6 +477,7 @@ impl RunKey {
             "ops": self.ops.iter().map(|o| o.name()).collect::<Vec<_>>(),
             "cfg": self.cfg.to_json(),
             "cfg_label": self.cfg.label(),
+            "end": self.end.name(),
         })
     }
     fn from_json(v: &Value) -> Option<RunKey> {
@@ -392,7 +486,7 @@ impl RunKey {
         for o in v["ops"].as_array()? {
             ops.push(Op::parse(o.as_str()?)?);
         }
-        Some(RunKey { var, ops, cfg: Cfg::from_json(&v["cfg"]) })
+        Some(RunKey { var, ops, cfg: Cfg::from_json(&v["cfg"]), end: End::parse(v["end"].as_str().unwrap_or("stay")) })
     }
 }
 
@@ -451,6 +545,7 @@ fn op_exec(t: &TestDb, var: Var, op: Op, step: usize) -> Vec<Res> {
         Op::TxnUpdAll => vec![t.exec("BEGIN"), t.exec("UPDATE t SET a = a + 1"), t.exec("COMMIT")],
         Op::CreateU => vec![t.exec("CREATE TABLE u(id INT PRIMARY KEY AUTO_INCREMENT, a INT)")],
         Op::InsU => vec![t.exec(&format!("INSERT INTO u (a) VALUES ({step})"))],
+        Op::Sw(s) => vec![t.exec(s.pragma())],
         Op::Prep(a, b) => {
             // prepared INSERT executed twice: the second execution takes the cached-plan path
             let db = t.db();
@@ -483,6 +578,8 @@ fn op_exec(t: &TestDb, var: Var, op: Op, step: usize) -> Vec<Res> {
 }
 
 thread_local! {
+    /// sessions ended by drop / close() / checkpoint() and opened again
+    static SESSION_REOPENS: std::cell::Cell<u64> = std::cell::Cell::new(0);
     /// executions of a prepared INSERT that found a cached insert plan (the `insert_cached` path, where wal_autoflush matters)
     static CACHED_PLAN_EXECS: std::cell::Cell<u64> = std::cell::Cell::new(0);
 }
@@ -574,7 +671,7 @@ fn step_kind(a: &Res, b: &Res) -> &'static str {
 
 fn execute(scratch: &std::path::Path, name: &str, k: &RunKey) -> Trace {
     let mut tr = Trace { steps: vec![], setup_fail: None, obs: vec![], statements: 0, rows_final: 0, index_plan: false, wal_frames: 0 };
-    let t = match TestDb::create(scratch, name) {
+    let mut t = match TestDb::create(scratch, name) {
         Ok(t) => t,
         Err(e) => {
             tr.setup_fail = Some(format!("Database::create failed: {e}"));
@@ -585,10 +682,52 @@ fn execute(scratch: &std::path::Path, name: &str, k: &RunKey) -> Trace {
         tr.setup_fail = Some(format!("pragma failed: {e}"));
         return tr;
     }
+    // values written by a statement depend on its position among the NON-switch steps, so that the reference
+    // execution (switches removed) writes the same values
+    let mut logical = 0usize;
     for s in 0..k.steps() {
-        let res = if s == 0 { k.var.create_sql().iter().map(|q| t.exec(q)).collect::<Vec<_>>() } else { op_exec(&t, k.var, k.ops[s - 1], s) };
+        let res = if s == 0 {
+            k.var.create_sql().iter().map(|q| t.exec(q)).collect::<Vec<_>>()
+        } else {
+            if !k.ops[s - 1].is_switch() {
+                logical += 1;
+            }
+            op_exec(&t, k.var, k.ops[s - 1], logical)
+        };
         tr.statements += res.len() as u64;
         tr.steps.push(res);
+    }
+    if (k.cfg.wal || k.cfg.sync != 0 || k.ops.iter().any(|o| o.is_switch())) && k.end != End::Stay {
+        if let Res::Done(tag) = t.exec("PRAGMA wal_frame_count") {
+            tr.wal_frames = tag.split('"').nth(1).and_then(|n| n.parse().ok()).unwrap_or(0);
+        }
+    }
+    if k.end != End::Stay {
+        // the session ends; the directory is opened again under the default configuration
+        let r = match k.end {
+            End::Drop | End::Stay => t.reopen(),
+            End::Close => t.close_reopen(),
+            End::Checkpoint => {
+                let cp = match vcore::catch(|| t.db().checkpoint().map(|_| ()).map_err(|e| format!("{e:#}"))) {
+                    Ok(Ok(())) => Ok(()),
+                    Ok(Err(e)) => Err(format!("checkpoint: {e}")),
+                    Err(p) => Err(format!("PANIC in checkpoint: {p}")),
+                };
+                match cp {
+                    Ok(()) => t.reopen(),
+                    Err(e) => Err(e),
+                }
+            }
+        };
+        let what = format!("{} + Database::open", k.end.name());
+        match r {
+            Ok(()) => tr.obs.push(("reopen", what, Res::Done("open".into()))),
+            Err(e) => {
+                tr.obs.push(("reopen", what, if e.starts_with("PANIC") { Res::Panic(e) } else { Res::Err(e) }));
+                return tr;
+            }
+        }
+        SESSION_REOPENS.with(|c| c.set(c.get() + 1));
     }
     if k.cfg == Cfg::DEFAULT {
         // vacuity evidence only (not compared): does the a-lookup use the secondary index?
@@ -600,7 +739,7 @@ fn execute(scratch: &std::path::Path, name: &str, k: &RunKey) -> Trace {
     if let Some((_, _, Res::Rows(r))) = tr.obs.iter().find(|(k, _, _)| *k == "rows") {
         tr.rows_final = r.len();
     }
-    if k.cfg.wal || k.cfg.sync != 0 {
+    if (k.cfg.wal || k.cfg.sync != 0) && k.end == End::Stay {
         if let Res::Done(tag) = t.exec("PRAGMA wal_frame_count") {
             tr.wal_frames = tag.split('"').nth(1).and_then(|n| n.parse().ok()).unwrap_or(0);
         }
@@ -617,8 +756,19 @@ fn diff(key: &RunKey, twin: &Trace, run: &Trace) -> Option<Diff> {
     if let Some(e) = &run.setup_fail {
         return Some(Diff { kind: "error", at: "configuration setup".into(), expected: "pragmas accepted".into(), observed: e.clone() });
     }
-    for s in 0..twin.steps.len().min(run.steps.len()) {
-        let (a, b) = (&twin.steps[s], &run.steps[s]);
+    let mut ts = 0usize; // step index in the reference (it has no switch steps)
+    for s in 0..run.steps.len() {
+        if s >= 1 && key.ops[s - 1].is_switch() {
+            if let Some(bad) = run.steps[s].iter().find(|r| !r.ok()) {
+                return Some(Diff { kind: "error", at: format!("result of {}", step_name(s)), expected: "pragma accepted".into(), observed: bad.show() });
+            }
+            continue;
+        }
+        if ts >= twin.steps.len() {
+            break;
+        }
+        let (a, b) = (&twin.steps[ts], &run.steps[s]);
+        ts += 1;
         for i in 0..a.len().max(b.len()) {
             match (a.get(i), b.get(i)) {
                 (Some(x), Some(y)) if same(x, y) => {}
@@ -631,7 +781,9 @@ fn diff(key: &RunKey, twin: &Trace, run: &Trace) -> Option<Diff> {
     }
     for (x, y) in twin.obs.iter().zip(run.obs.iter()) {
         if !same(&x.2, &y.2) {
-            return Some(Diff { kind: x.0, at: format!("final observation `{}`", x.1), expected: x.2.show(), observed: y.2.show() });
+            let kind = if x.0 == "reopen" { "error" } else { x.0 };
+            let when = if key.end == End::Stay { "final observation".to_string() } else { format!("observation after {} + open", key.end.name()) };
+            return Some(Diff { kind, at: format!("{when} `{}`", x.1), expected: x.2.show(), observed: y.2.show() });
         }
     }
     None
@@ -688,7 +840,7 @@ impl<'a> Engine<'a> {
     }
     /// memoised verdict of one execution against its default-configuration twin
     fn judge(&mut self, key: &RunKey) -> Option<Diff> {
-        if key.cfg == Cfg::DEFAULT {
+        if key.is_reference() {
             return None;
         }
         if let Some(d) = self.memo.get(key) {
@@ -728,6 +880,19 @@ impl<'a> Engine<'a> {
                 }
                 if !found {
                     break;
+                }
+            }
+            // 0b. simpler session ending (none < drop < close() < checkpoint())
+            for e in cur.end.simpler() {
+                let mut cand = cur.clone();
+                cand.end = e;
+                if let Some(d) = self.judge(&cand) {
+                    if d.kind == kind {
+                        cur = cand;
+                        cur_diff = d;
+                        changed = true;
+                        break;
+                    }
                 }
             }
             // 1. remove ops
@@ -886,7 +1051,7 @@ impl<'a, 'b> Walker<'a, 'b> {
                 }
                 continue;
             }
-            let key = RunKey { var, ops: ops.to_vec(), cfg };
+            let key = RunKey { var, ops: ops.to_vec(), cfg, end: End::Stay };
             if first {
                 first = false;
                 let tw = self.eng.twin(&key);
@@ -962,6 +1127,127 @@ impl<'a, 'b> Walker<'a, 'b> {
             ops.pop();
         }
     }
+}
+
+// ---------------------------------------------------------------------------
+// session pass: configuration switched in mid-session x how the session ends, judged after a reopen
+// ---------------------------------------------------------------------------
+
+/// Every history of <= max_ops letters over `dml` plus AT MOST ONE mid-session PRAGMA switch (at every
+/// position, only switches that change something under the starting configuration) is executed under
+/// every starting configuration and ended in every way of `ends`; the directory is then opened again
+/// under the default configuration and fully observed.  Reference = the same DML under the default
+/// configuration, no switch, handle dropped, reopened.
+struct SessionPass {
+    name: &'static str,
+    vars: Vec<Var>,
+    dml: Vec<Op>,
+    max_ops: usize,
+    configs: Vec<Cfg>,
+    ends: Vec<End>,
+}
+
+fn session_passes(ctx: &Ctx) -> Vec<SessionPass> {
+    let on = Cfg { wal: true, ..Cfg::DEFAULT };
+    let ends = vec![End::Drop, End::Close, End::Checkpoint];
+    let small = vec![Op::Ins(1), Op::Ins(2), Op::Upd(1), Op::Del(1), Op::Prep(2, 3)];
+    if ctx.quick() {
+        vec![SessionPass { name: "session", vars: vec![Var::Pk, Var::PkIdx], dml: small, max_ops: 3, configs: vec![on, Cfg { autoflush: 1, ..on }, Cfg::DEFAULT], ends }]
+    } else {
+        let wide = vec![Op::Ins(1), Op::Ins(2), Op::Ins2(2, 3), Op::Upd(1), Op::UpdAll, Op::Del(1), Op::Trunc, Op::Prep(2, 3), Op::TxnIns(3)];
+        let cfgs = vec![on, Cfg { autoflush: 1, ..on }, Cfg { sync: 1, ..on }, Cfg { threshold: 1, ..on }, Cfg { sync: 1, autoflush: 1, threshold: 2, ..on }, Cfg { sync: 1, ..Cfg::DEFAULT }, Cfg::DEFAULT];
+        vec![
+            SessionPass { name: "session", vars: ALL_VARS.to_vec(), dml: wide, max_ops: 3, configs: cfgs, ends: ends.clone() },
+            SessionPass { name: "session-deep", vars: vec![Var::Pk, Var::PkIdx], dml: small, max_ops: 4, configs: vec![on, Cfg { autoflush: 1, ..on }, Cfg::DEFAULT], ends },
+        ]
+    }
+}
+
+/// histories of one (pass, configuration) starting with `first`, shortest first
+fn session_histories(p: &SessionPass, cfg: Cfg, first: Op) -> Vec<Vec<Op>> {
+    let mut letters: Vec<Op> = p.dml.clone();
+    letters.extend(ALL_SWITCHES.iter().filter(|s| s.changes(cfg)).map(|s| Op::Sw(*s)));
+    let mut level: Vec<Vec<Op>> = vec![vec![first]];
+    let mut out = vec![];
+    for len in 1..=p.max_ops {
+        for h in &level {
+            if h.iter().any(|o| !o.is_switch()) {
+                out.push(h.clone());
+            }
+        }
+        if len == p.max_ops {
+            break;
+        }
+        let mut next = vec![];
+        for h in &level {
+            let has_sw = h.iter().any(|o| o.is_switch());
+            for &l in &letters {
+                if l.is_switch() && has_sw {
+                    continue;
+                }
+                let mut h2 = h.clone();
+                h2.push(l);
+                next.push(h2);
+            }
+        }
+        level = next;
+    }
+    out
+}
+
+fn run_session_pass(ctx: &Ctx, eng: &mut Engine, rep: &mut Reporter, p: &SessionPass, group_base: u64) -> bool {
+    let mut group = group_base;
+    for &var in &p.vars {
+        for &cfg in &p.configs {
+            let mut firsts: Vec<Op> = p.dml.clone();
+            firsts.extend(ALL_SWITCHES.iter().filter(|s| s.changes(cfg)).map(|s| Op::Sw(*s)));
+            for first in firsts {
+                group += 1;
+                // a whole subtree (same first letter) belongs to one worker: prefix verdicts and reference runs are local
+                if !ctx.mine(group) {
+                    continue;
+                }
+                let mut diverged: BTreeSet<(End, Vec<Op>)> = BTreeSet::new();
+                for ops in session_histories(p, cfg, first) {
+                    if ctx.expired() {
+                        rep.capped(&format!("deadline in pass {}", p.name));
+                        return false;
+                    }
+                    let sw = ops.iter().find_map(|o| if let Op::Sw(s) = o { Some(*s) } else { None });
+                    let sw_pos = ops.iter().position(|o| o.is_switch());
+                    for &end in &p.ends {
+                        let key = RunKey { var, ops: ops.clone(), cfg, end };
+                        if key.is_reference() {
+                            continue;
+                        }
+                        if (1..ops.len()).any(|n| diverged.contains(&(end, ops[..n].to_vec()))) {
+                            rep.pruned(1);
+                            continue;
+                        }
+                        let violated = check_case(eng, rep, &key, p.name, true);
+                        rep.case(vcore::util::hash_of(&key), true);
+                        rep.add_states(key.steps() as u64 + 1);
+                        rep.add_transitions(key.steps() as u64 + 1);
+                        rep.add_traces_validated(1);
+                        rep.count("session_runs", 1);
+                        rep.count(&format!("session cfg {} end {}", cfg.label(), end.name()), 1);
+                        if let (Some(s), Some(pos)) = (sw, sw_pos) {
+                            rep.count(&format!("session switch {}", s.label()), 1);
+                            if pos > 0 && pos + 1 < ops.len() {
+                                rep.count("session_runs_with_switch_between_dml", 1);
+                            }
+                        }
+                        rep.outcome(&format!("session/{}/{}/{}/{}", cfg.label(), sw.map(|s| s.label()).unwrap_or("no-switch"), end.name(), if violated { "diverged" } else { "equal" }));
+                        if violated {
+                            rep.count("diverged_runs", 1);
+                            diverged.insert((end, ops.clone()));
+                        }
+                    }
+                }
+            }
+        }
+    }
+    true
 }
 
 // ---------------------------------------------------------------------------
@@ -1193,11 +1479,12 @@ impl Check for C42 {
     fn run(&self, ctx: &Ctx, rep: &mut Reporter) {
         // recorded first so that a capped run still carries a sample
         rep.sample(|| json!({"variant": "pkidx", "ops": ["INS1", "PREP_23", "TXN_INS3"], "cfg": "wal=ON,synchronous=OFF,wal_checkpoint_threshold=1", "meaning": "CREATE t + index; INSERT 1; prepared INSERT of 2 then 3; BEGIN, INSERT 3, COMMIT (auto-checkpoint); observe — vs. the same under the default configuration"}));
-        for c in ["baseline_histories", "baseline_index_plans_for_a_lookup", "prepared_inserts_through_cached_plan", "runs_with_wal_frames_at_end", "large_schema_scenarios", "large_schema_runs_with_lru_evictions", "large_schema_reopens"] {
+        for c in ["baseline_histories", "baseline_index_plans_for_a_lookup", "prepared_inserts_through_cached_plan", "runs_with_wal_frames_at_end", "large_schema_scenarios", "large_schema_runs_with_lru_evictions", "large_schema_reopens", "session_runs", "session_reopens", "session_runs_with_switch_between_dml", "session switch wal_autoflush=OFF", "session switch wal_autoflush=ON"] {
             rep.expect_nonzero(c);
         }
         let ps = passes(ctx);
         rep.bound("passes", json!(ps.iter().map(|p| json!({"name": p.name, "variants": p.vars.iter().map(|v| v.name()).collect::<Vec<_>>(), "alphabet": p.alphabet.iter().map(|o| o.name()).collect::<Vec<_>>(), "max_ops_after_create": p.max_ops, "configurations": p.configs.iter().map(|c| c.label()).collect::<Vec<_>>()})).collect::<Vec<_>>()));
+        rep.bound("session_passes", json!(session_passes(ctx).iter().map(|p| json!({"name": p.name, "variants": p.vars.iter().map(|v| v.name()).collect::<Vec<_>>(), "dml": p.dml.iter().map(|o| o.name()).collect::<Vec<_>>(), "switches (at most one per history, at every position)": ALL_SWITCHES.iter().map(|s| s.label()).collect::<Vec<_>>(), "max_ops": p.max_ops, "starting configurations": p.configs.iter().map(|c| c.label()).collect::<Vec<_>>(), "endings": p.ends.iter().map(|e| e.name()).collect::<Vec<_>>()})).collect::<Vec<_>>()));
         rep.bound("large_schema", json!({"tables": BIG_TABLES, "indexes": BIG_TABLES, "lru_capacity": 64, "scenarios": large_schema_cases().iter().map(|(c, o)| format!("{}/{}", c.label(), o)).collect::<Vec<_>>()}));
         // large-schema scenarios first (few, cheap), split across workers
         for (i, (cfg, order)) in large_schema_cases().into_iter().enumerate() {
@@ -1235,8 +1522,22 @@ impl Check for C42 {
                 w.dfs(pass, var, &mut ops, &BTreeSet::new(), false);
             }
         }
+        if !w.capped {
+            let mut base = 2_000_000u64;
+            for sp in session_passes(ctx) {
+                if ctx.opt("only").map(|o| o != sp.name).unwrap_or(false) {
+                    continue;
+                }
+                if !run_session_pass(ctx, &mut w.eng, w.rep, &sp, base) {
+                    w.capped = true;
+                    break;
+                }
+                base += 100_000;
+            }
+        }
         let (runs, shrink_runs, wf) = (w.eng.runs, w.eng.shrink_runs, w.eng.runs_with_wal_frames);
         drop(w);
+        rep.count("session_reopens", SESSION_REOPENS.with(|c| c.get()));
         rep.count("database_executions", runs);
         rep.count("executions_spent_shrinking", shrink_runs);
         rep.count("runs_with_wal_frames_at_end", wf);
